@@ -279,6 +279,17 @@ def shard_stream(arg) -> E.Tally:
                 other = [r for r in raised if r[1] != "ValueError" or not (pos <= r[0] < pos + reps)]
                 _judge(t, "MqttTransport", name, pos, got, [None] if not other else other, excs, want)
             # (e) MQTT: a valid frame inside an envelope whose timestamp is undatable / has no zone / has no fraction
+            # (g) a port with sending enabled: a further echo of the gateway's signature (a gateway slower than the 50 ms signature poll
+            #     echoes more than one) arrives at any position among valid lines, in the same read / a read of its own
+            if name == names[0]:
+                raw = [ln.encode("latin-1") + b"\r\n" for ln in valid]
+                for k in (1, 2):
+                    seq = raw[:pos] + [rxworld.SIG_ECHO + b"\r\n"] * k + raw[pos:]
+                    for mode, chunks in (("one-read", [b"".join(seq)]), ("line-per-read", seq)):
+                        got, raised, excs, _ = rxworld.port_reads(chunks, use_real_protocol=True, sending=True)
+                        t.n += 1
+                        got = [m for m in got if m._pkt.code != "7FFF"]  # (the echo itself is a valid packet: delivering it is fine)
+                        _judge(t, f"PortTransport(sending,{mode})", "signature-echo", pos, got, [None] if not raised else raised, excs, [v[4:] for v in valid])
             # (f) saved-state dict / packet log: a valid frame under a timestamp that cannot be dated (or an odd but datable one)
             for ts_name, ts in () if name != names[0] else (("empty", ""), ("words", "yesterday at noon"), ("month-13", "2024-13-29T12:05:59.500000"), ("truncated", "2024-02-29T12:"), ("digit-O", "2024-02-29T12:O5:59.500000"), ("epoch", "1970-01-01T00:00:13.000000"), ("far-future", "2099-12-31T23:59:59.999999")):
                 datable = ts_name in ("epoch", "far-future")
